@@ -98,6 +98,11 @@ func init() {
 			in.mapOrderArbitrary = a[0].(*Term).cval == 1
 			return nil
 		},
+		verifPkg + ".MergeInt":     mergeIntrinsic,
+		verifPkg + ".MergeInt64":   mergeIntrinsic,
+		verifPkg + ".MergeUint64":  mergeIntrinsic,
+		verifPkg + ".MergeBool":    mergeIntrinsic,
+		verifPkg + ".MergeFloat64": mergeIntrinsic,
 		verifPkg + ".Symbolic": func(in *Interp, fr *frame, fn *ssa.Function, a []Value) Value {
 			return in.tt.Bool(true)
 		},
@@ -756,4 +761,137 @@ func sortSlice(in *Interp, fr *frame, fn *ssa.Function, a []Value) Value {
 		}
 	}
 	return nil
+}
+
+// ---- state merging: run a pure closure on all its paths and join the
+// results into one ite term, so the caller continues as a single path ----
+
+func mergeIntrinsic(in *Interp, fr *frame, fn *ssa.Function, a []Value) Value {
+	return in.merge(fr, a[0])
+}
+
+type mergeRes struct {
+	cond *Term
+	val  *Term
+	tp   *targetPanic
+}
+
+func (in *Interp) merge(fr *frame, closure Value) Value {
+	tt := in.tt
+	if in.pos < len(in.prefix) {
+		// inside a replayed prefix the merge is recomputed identically; its
+		// decisions are local and never part of the global prefix
+	}
+	savedPrefix, savedPos, savedTrace, savedOnFork := in.prefix, in.pos, in.trace, in.onFork
+	savedModel, savedOK, savedMemo := in.model, in.modelOK, in.memo
+	basePC := len(in.pc)
+	in.syncSolver()
+	type item struct {
+		prefix []Decision
+		model  map[string]uint64
+	}
+	work := []item{{}}
+	if savedOK {
+		work[0].model = savedModel
+	}
+	var results []mergeRes
+	var abort interface{}
+	for len(work) > 0 && abort == nil {
+		it := work[len(work)-1]
+		work = work[:len(work)-1]
+		in.solver.Push()
+		in.pc = in.pc[:basePC]
+		in.pcSynced = basePC
+		in.prefix, in.pos, in.trace = it.prefix, 0, nil
+		if it.model != nil {
+			in.model, in.modelOK, in.memo = it.model, true, map[*Term]uint64{}
+		} else {
+			in.modelOK = false
+		}
+		in.onFork = func(p []Decision, m map[string]uint64) {
+			work = append(work, item{prefix: p, model: m})
+		}
+		var r mergeRes
+		skip := false
+		func() {
+			defer func() {
+				if e := recover(); e != nil {
+					switch e := e.(type) {
+					case pathEnd:
+						if e.kind == "infeasible" {
+							skip = true
+						} else {
+							abort = e
+						}
+					case *targetPanic:
+						r.tp = e
+					default:
+						abort = e
+					}
+				}
+			}()
+			v := in.callValue(fr, closure, nil)
+			t, ok := v.(*Term)
+			if !ok {
+				unsupported("verif.Merge* closure must return a scalar, got %T", v)
+			}
+			r.val = t
+		}()
+		if abort == nil && !skip {
+			c := tt.Bool(true)
+			for _, p := range in.pc[basePC:] {
+				c = tt.And(c, p)
+			}
+			r.cond = c
+			results = append(results, r)
+		}
+		in.nLocalPaths++
+		in.solver.Pop()
+	}
+	// restore the outer path
+	in.pc = in.pc[:basePC]
+	in.pcSynced = basePC
+	in.prefix, in.pos, in.trace, in.onFork = savedPrefix, savedPos, savedTrace, savedOnFork
+	in.model, in.modelOK, in.memo = savedModel, savedOK, savedMemo
+	in.curFrame = fr
+	if abort != nil {
+		panic(abort)
+	}
+	if len(results) == 0 {
+		panic(pathEnd{"infeasible", "merge: no feasible path"})
+	}
+	// panicking sub-paths: decided globally (forks the outer path)
+	var panicCond *Term = tt.Bool(false)
+	var firstPanic *targetPanic
+	var vals []mergeRes
+	all := tt.Bool(false)
+	for _, r := range results {
+		all = tt.Or(all, r.cond)
+		if r.tp != nil {
+			panicCond = tt.Or(panicCond, r.cond)
+			if firstPanic == nil {
+				firstPanic = r.tp
+			}
+		} else {
+			vals = append(vals, r)
+		}
+	}
+	if !all.IsTrue() {
+		// the sub-paths cover everything the closure allows (Assume inside it
+		// restricts the outer path too)
+		in.assume(all)
+	}
+	if firstPanic != nil {
+		if in.decide(panicCond) {
+			panic(firstPanic)
+		}
+	}
+	if len(vals) == 0 {
+		panic(pathEnd{"infeasible", "merge: all paths panic"})
+	}
+	res := vals[len(vals)-1].val
+	for i := len(vals) - 2; i >= 0; i-- {
+		res = tt.Ite(vals[i].cond, vals[i].val, res)
+	}
+	return res
 }
